@@ -131,6 +131,19 @@ def explore(ctx):
         if bad:
             desc["glyphs"][1]["unicodes"] = list(desc["glyphs"][0]["unicodes"])     # duplicate code point: raises midway
         font = build_font(desc, lib)
+        if i % 6 == 5 and not bad:
+            # compiling a non-default layer: an empty one, or one whose only glyph is not exported (the working glyph set is
+            # empty then, the default layer is not)
+            which = ["empty", "only-skipped"][(i // 6) % 2]
+            layer = font.newLayer("aux")
+            if which == "only-skipped":
+                gl = layer.newGlyph(names[0])
+                gl.width = 500
+                font[names[0]].drawPoints(gl.getPointPen()) if not desc["glyphs"][0]["components"] else None
+                opts["skipExportGlyphs"] = [names[0]]
+            opts["layerName"] = "aux"
+            opts.pop("flattenComponents", None)
+            ctx.klass("static:layerName=%s" % which)
         case = {"function": fn, "options": jsonable(opts), "lib": lib, "font": jsonable(desc), "raises_midway": bad}
         ctx.klass("static:%s%s" % (fn, ":raises" if bad else ""))
         run_case(ctx, case, [font], None, lambda: getattr(ufo2ft, fn)(font, **opts), expect_raise=bad)
